@@ -223,7 +223,7 @@ def cargo_build(profile, log):
 
 
 def harness_bin(profile):
-    return os.path.join(HARNESS_DIR, "target", profile, "ymqh")
+    return os.path.join(os.environ.get("CARGO_TARGET_DIR", os.path.join(HARNESS_DIR, "target")), profile, "ymqh")
 
 
 def driver_bin():
